@@ -235,6 +235,9 @@ type hsConfig struct {
 	// static public key its peer stored at pairing time but does not own the
 	// matching private key (its ECDH operations use an unrelated key).
 	Impostor string `json:"impostor,omitempty"`
+	// passOverride (not serialised): both parties use exactly this
+	// passphrase entropy (used to pair other sessions earlier in the process).
+	passOverride []byte
 	// StaleAuth: the initiator's ConnData already holds an auth payload from
 	// an earlier handshake (the real client keeps one ConnData across the
 	// pairing handshake and every reconnect).
@@ -297,6 +300,10 @@ func newHSPair(cfg hsConfig) *hsPair {
 		// lacks
 		p.passI[13] = 0
 		p.passR = append([]byte(nil), p.passI[:13]...)
+	}
+	if cfg.passOverride != nil {
+		p.passI = append([]byte(nil), cfg.passOverride...)
+		p.passR = append([]byte(nil), cfg.passOverride...)
 	}
 	if !cfg.NilAuth {
 		p.auth = entropy(cfg.Seed, "auth", cfg.AuthLen)
